@@ -122,36 +122,36 @@ def decStrPtr (n : Node) : D (Option String) :=
 def isMerge (k : Node) : Bool :=
   k.kind = .scalar && k.value = "<<" && (k.tag = "" || k.tag = "!" || k.tag = "!!merge")
 
-/-- `d.mappingStruct`: the (field name, value node) pairs of the known fields, in document order; a known field given
-twice is an error, other keys are skipped (after decoding the key into a string) -/
-def structLoop (fields : List String) : List (Node × Node) → List String → D (List (String × Node))
-  | [], _ => .ok []
-  | (k, v) :: rest, done =>
+/-- `d.mapping` with `uniqueKeys`: two keys of the same kind and value, whether they name a field or not -/
+def hasDupKey : List (Node × Node) → Bool
+  | [] => false
+  | (k, _) :: rest => rest.any (fun q => q.1.kind = k.kind && q.1.value = k.value) || hasDupKey rest
+
+/-- `d.mappingStruct`: the loop over the keys of a mapping that fills a struct; `set st name v` decodes the value node
+`v` into the field `name`. A known field given twice is an error, other keys are skipped (after decoding the key into a
+string) -/
+def structLoop {σ : Type} (fields : List String) (set : σ → String → Node → D σ) :
+    List (Node × Node) → List String → σ → D σ
+  | [], _, st => .ok st
+  | (k, v) :: rest, done, st =>
     if isMerge k then .error .unsupported
     else match decStr k with
       | .error e => .error e
       | .ok name =>
         if name ∈ fields then
           if name ∈ done then .error .decode
-          else (structLoop fields rest (name :: done)).map ((name, v) :: ·)
-        else structLoop fields rest done
+          else match set st name v with
+            | .error e => .error e
+            | .ok st' => structLoop fields set rest (name :: done) st'
+        else structLoop fields set rest done st
 
-/-- `d.mapping` with `uniqueKeys`: two keys of the same kind and value, whether they name a field or not -/
-def hasDupKey : List (Node × Node) → Bool
-  | [] => false
-  | (k, _) :: rest => rest.any (fun q => q.1.kind = k.kind && q.1.value = k.value) || hasDupKey rest
-
-def structFields (fields : List String) (n : Node) : D (List (String × Node)) :=
+/-- decoding a node into a struct whose zero value is `init` -/
+def structDecode {σ : Type} (fields : List String) (set : σ → String → Node → D σ) (init : σ) (n : Node) : D σ :=
   match n.kind with
   | .alias => .error .unsupported
-  | .mapping => if hasDupKey (pairs n.content) then .error .decode else structLoop fields (pairs n.content) []
-  | .scalar => if n.tag = "!!null" then .ok [] else .error .decode
+  | .mapping => if hasDupKey (pairs n.content) then .error .decode else structLoop fields set (pairs n.content) [] init
+  | .scalar => if n.tag = "!!null" then .ok init else .error .decode
   | _ => .error .decode
-
-def field (fs : List (String × Node)) (name : String) : Option Node :=
-  match fs.find? (·.1 = name) with
-  | some e => some e.2
-  | none => none
 
 def tyOfString : String → Ty
   | "boolean" => .bool
@@ -159,25 +159,30 @@ def tyOfString : String → Ty
   | "string" => .string
   | _ => .any
 
+/-- the anonymous struct `metadata` of `ReusableWorkflowMetadataInput.UnmarshalYAML` -/
+structure InSt where
+  required : Bool := false
+  dflt : Option String := none
+  ty : String := ""
+
+def setInput (st : InSt) (name : String) (v : Node) : D InSt :=
+  match name with
+  | "required" => (decBool v).map fun b => { st with required := b }
+  | "default" => (decStrPtr v).map fun d => { st with dflt := d }
+  | "type" => (decStr v).map fun t => { st with ty := t }
+  | _ => .ok st
+
 /-- `ReusableWorkflowMetadataInput.UnmarshalYAML` (not called for a null node: all fields zero, `Type` then set to any) -/
-def decInput (v : Node) : D (Bool × Ty) := do
-  let fs ← structFields ["required", "default", "type"] v
-  let req ← match field fs "required" with
-    | some x => decBool x
-    | none => pure false
-  let dflt ← match field fs "default" with
-    | some x => decStrPtr x
-    | none => pure none
-  let ty ← match field fs "type" with
-    | some x => decStr x
-    | none => pure ""
-  pure (req && dflt.isNone, tyOfString ty)
+def decInput (v : Node) : D (Bool × Ty) :=
+  (structDecode ["required", "default", "type"] setInput {} v).map fun st =>
+    (st.required && st.dflt.isNone, tyOfString st.ty)
 
 def decInputsLoop (cfg : Cfg) : List (Node × Node) → List (String × Input) → D (List (String × Input))
   | [], m => .ok m
-  | (k, v) :: rest, m => do
-    let r ← decInput v
-    decInputsLoop cfg rest (put m (cfg.lower k.value) ⟨k.value, r.1, r.2⟩)
+  | (k, v) :: rest, m =>
+    match decInput v with
+    | .error e => .error e
+    | .ok r => decInputsLoop cfg rest (put m (cfg.lower k.value) ⟨k.value, r.1, r.2⟩)
 
 /-- `ReusableWorkflowMetadataInputs.UnmarshalYAML` -/
 def decInputs (cfg : Cfg) (n : Node) : D (List (String × Input)) :=
@@ -186,21 +191,27 @@ def decInputs (cfg : Cfg) (n : Node) : D (List (String × Input)) :=
   | .mapping => decInputsLoop cfg (pairs n.content) []
   | _ => .error .decode
 
-/-- decoding a `ReusableWorkflowMetadataSecret` (fields `name`, `required`; `Name` is overwritten with the key) -/
-def decSecret (v : Node) : D Bool := do
-  let fs ← structFields ["name", "required"] v
-  let _ ← match field fs "name" with
-    | some x => decStr x
-    | none => pure ""
-  match field fs "required" with
-    | some x => decBool x
-    | none => pure false
+/-- `ReusableWorkflowMetadataSecret`: fields `name` (no tag: the lower-cased field name) and `required` -/
+structure SecSt where
+  name : String := ""
+  required : Bool := false
+
+def setSecret (st : SecSt) (name : String) (v : Node) : D SecSt :=
+  match name with
+  | "name" => (decStr v).map fun s => { st with name := s }
+  | "required" => (decBool v).map fun b => { st with required := b }
+  | _ => .ok st
+
+/-- decoding a `ReusableWorkflowMetadataSecret`; `Name` is overwritten with the key afterwards -/
+def decSecret (v : Node) : D Bool :=
+  (structDecode ["name", "required"] setSecret {} v).map (·.required)
 
 def decSecretsLoop (cfg : Cfg) : List (Node × Node) → List (String × Secret) → D (List (String × Secret))
   | [], m => .ok m
-  | (k, v) :: rest, m => do
-    let r ← decSecret v
-    decSecretsLoop cfg rest (put m (cfg.lower k.value) ⟨k.value, r⟩)
+  | (k, v) :: rest, m =>
+    match decSecret v with
+    | .error e => .error e
+    | .ok r => decSecretsLoop cfg rest (put m (cfg.lower k.value) ⟨k.value, r⟩)
 
 /-- `ReusableWorkflowMetadataSecrets.UnmarshalYAML` -/
 def decSecrets (cfg : Cfg) (n : Node) : D (List (String × Secret)) :=
@@ -216,19 +227,20 @@ def decOutputs (cfg : Cfg) (n : Node) : D (List (String × String)) :=
   | .mapping => .ok ((pairs n.content).foldl (fun m kv => put m (cfg.lower kv.1.value) kv.1.value) [])
   | _ => .error .decode
 
-/-- a field with an `UnmarshalYAML` method: the method is not called for a null node -/
-def viaUnmarshaler {α : Type} (dec : Node → D (List α)) (x : Option Node) : D (List α) :=
-  match x with
-  | none => .ok []
-  | some n => if n.isNull then .ok [] else dec n
+/-- a field with an `UnmarshalYAML` method: the method is not called for a null node, the field gets its zero value -/
+def viaUnmarshaler {α : Type} (dec : Node → D (List α)) (n : Node) : D (List α) :=
+  if n.isNull then .ok [] else dec n
+
+def setMeta (cfg : Cfg) (st : Meta) (name : String) (v : Node) : D Meta :=
+  match name with
+  | "inputs" => (viaUnmarshaler (decInputs cfg) v).map fun i => { st with inputs := i }
+  | "outputs" => (viaUnmarshaler (decOutputs cfg) v).map fun o => { st with outputs := o }
+  | "secrets" => (viaUnmarshaler (decSecrets cfg) v).map fun s => { st with secrets := s }
+  | _ => .ok st
 
 /-- decoding the value of the `workflow_call:` key into `ReusableWorkflowMetadata` -/
-def fromYaml (cfg : Cfg) (n : Node) : D Meta := do
-  let fs ← structFields ["inputs", "outputs", "secrets"] n
-  let i ← viaUnmarshaler (decInputs cfg) (field fs "inputs")
-  let o ← viaUnmarshaler (decOutputs cfg) (field fs "outputs")
-  let s ← viaUnmarshaler (decSecrets cfg) (field fs "secrets")
-  pure { inputs := i, outputs := o, secrets := s }
+def fromYaml (cfg : Cfg) (n : Node) : D Meta :=
+  structDecode ["inputs", "outputs", "secrets"] (setMeta cfg) {} n
 
 def findCallKey (cfg : Cfg) : List (Node × Node) → Option Node
   | [] => none
@@ -245,20 +257,53 @@ def fromOn (cfg : Cfg) (on : Node) : D Meta :=
   | .sequence => if on.content.any (fun c => cfg.lower c.value = "workflow_call") then .ok {} else .error .notFound
   | _ => .error .notFound
 
-/-- `yaml.Unmarshal(src, &struct{ On yaml.Node })` then `parseReusableWorkflowMetadata`: from the document node -/
+/-- `yaml.Unmarshal(src, &struct{ On yaml.Node })` then `parseReusableWorkflowMetadata`: from the document node. A field
+of type `yaml.Node` takes the value node as it is (also an alias or a null) -/
 def fromDoc (cfg : Cfg) (doc : Node) : D Meta :=
   match doc.content with
   | [] => .error .notFound
   | root :: _ =>
-    match structFields ["on"] root with
+    match structDecode ["on"] (fun (st : Option Node) name v => if name = "on" then .ok (some v) else .ok st) none root with
     | .error e => .error e
-    | .ok fs =>
-      match field fs "on" with
-      | none => .error .notFound
-      | some on => fromOn cfg on
+    | .ok none => .error .notFound
+    | .ok (some on) => fromOn cfg on
 
 /-- the AST side for a whole document -/
 def fromDocAst (cfg : Cfg) (doc : Node) : Option Meta :=
   fromEvents ((parse cfg doc).1.on.getD [])
+
+
+/-! ### the domain on which the two derivations are proved to agree (AL.Props.C10Meta), as a computable test -/
+
+def nullWords : List String := ["", "~", "null", "Null", "NULL"]
+def boolWords : List String := ["true", "True", "TRUE", "false", "False", "FALSE"]
+
+/-- what yaml.v3 guarantees about a node it builds, minus alias and `!!binary` -/
+def saneNodeB (n : Node) : Bool :=
+  (n.kind != .alias) && (n.tag != "!!binary") && (n.kind != .scalar || n.content.isEmpty) &&
+  (n.kind == .scalar || n.value == "") && (n.tag != "!!null" || nullWords.contains n.value) &&
+  (n.tag != "!!bool" || boolWords.contains n.value)
+
+def saneB : Nat → Node → Bool
+  | 0, n => saneNodeB n
+  | d + 1, n => saneNodeB n && (pairs n.content).all fun q => saneB d q.1 && saneB d q.2
+
+/-- no `required:` of an input / secret is a `!!str` scalar (a `${{ }}` placeholder) -/
+def noPlaceholderB (n : Node) : Bool :=
+  (pairs n.content).all fun sec => (pairs sec.2.content).all fun ent => (pairs ent.2.content).all fun a =>
+    a.1.value != "required" || a.2.tag != "!!str"
+
+/-- the value of `on: → workflow_call:` (exact spelling) of a document, if the document has that shape -/
+def findKey (name : String) : List (Node × Node) → Option Node
+  | [] => none
+  | (k, v) :: rest => if k.kind = .scalar && k.value = name then some v else findKey name rest
+
+def callNode (doc : Node) : Option Node :=
+  match doc.content with
+  | [] => none
+  | root :: _ =>
+    match findKey "on" (pairs root.content) with
+    | none => none
+    | some on => findKey "workflow_call" (pairs on.content)
 
 end AL.CallMeta
